@@ -32,7 +32,7 @@ def run(ctx):
         rows = rr if not rows else rows
         total += len(rr)
         for s in rr:
-            point, topo, unmet, extra = s["id"].split("/")
+            point, topo, unmet, extra = s["id"].split("/")[:4]
             why = None
             if s["signal"] == -1:
                 ctx.inconclusive.append(f"crashbox child {s['id']} hung (20 s watchdog)")
@@ -40,7 +40,13 @@ def run(ctx):
             if s["did_not_panic"]:
                 ctx.inconclusive.append(f"crashbox scenario {s['id']} did not reach its fault (harness bug)")
                 continue
-            if topo in ("caught-then-continue", "thread-caught-then-continue"):
+            if s.get("fullerr"):
+                # nothing can be read from a stderr that rejects every write: only the way the child ended counts
+                if s["signal"] is not None:
+                    why = f"with an unwritable stderr the child died by signal {s['signal']} (abort) instead of exiting with the panic"
+                elif s["exit_code"] != 101:
+                    why = f"with an unwritable stderr the child exited with {s['exit_code']} instead of 101"
+            elif topo in ("caught-then-continue", "thread-caught-then-continue"):
                 if s["signal"] is not None:
                     why = f"child died by signal {s['signal']}"
                 elif s.get("continue_failed") or not s.get("continue_ok"):
@@ -58,14 +64,15 @@ def run(ctx):
             elif s["panics_reported"] > (2 if topo == "clone-thread-panics" else 1):
                 why = f"{s['panics_reported']} panics reported for one injected fault"
             if why:
-                ctx.violation(f"crashbox:{point}/{topo}/{unmet}/{extra}", {
+                ctx.violation(f"crashbox:{s['id']}", {
                     "what": why, "scenario": s["id"], "at": s["id"], "expected": "exit 101, one panic report, "
                     "first message = the injected fault", "observed": f"exit={s['exit_code']} signal={s['signal']} "
                     f"panics={s['panics_reported']} first={s['first_panic'][:200]!r} tail={s['stderr_tail'][-200:]!r}",
                     "replay_cmd": f"{exe} child {s['id']}"})
     points = sorted({s["id"].split("/")[0] for s in rows})
     topos = sorted({s["id"].split("/")[1] for s in rows})
-    ctx.require(len(points) >= 19 and len(topos) >= 15, "crash point x topology table incomplete")
+    ctx.require(len(points) >= 19 and len(topos) >= 16, "crash point x topology table incomplete")
+    ctx.require(any(s.get("fullerr") for s in rows), "no scenario ran with an unwritable stderr")
 
     # after a *caught* user panic the mock stays usable and verification reflects the matched calls (engine A)
     cases = 300_000 if ctx.tier == "quick" else 8_000_000
@@ -82,7 +89,7 @@ def run(ctx):
         "evaluations": total + sum(w["cases"] for w in workers),
         "distinct_nontrivial": len(rows) + summary["distinct_nontrivial"],
         "rule": "fault enumeration: crash point (3 body positions, matcher, answer, real fn, default body, argument "
-                "Debug, return Clone, 10 mock-induced kinds) x topology (15: caught and continued in-process, or fatal to a worker thread owning a clone and continued on the original (the same call must then work and verification must judge the counts), an explicit verify() from a fixture's destructor, original only, clone dropped "
+                "Debug, return Clone, 10 mock-induced kinds) x topology (15: caught and continued in-process, or fatal to a worker thread owning a clone and continued on the original (the same call must then work and verification must judge the counts), an explicit verify() from a fixture's destructor, a mock created and dropped by cleanup code during the unwinding, original only, clone dropped "
                 "first/outliving, clone parked on another thread, Rc, Arc, Arc whose last owner is a worker, Box, "
                 "Box<dyn Trait>, by-value provided method, original on a foreign thread, clone thread panics) x "
                 "met/unmet expectations x 0/2 extra live clones, each in its own child process (all combinations "
